@@ -80,6 +80,10 @@ def apply_ops(topo, x, ops, strict=False):
             continue
         if name in ('refine', 'refined_by') and any(a[0] == 'trim' and a[3] == 0 for a in applied) and not strict:
             continue
+        #  - trimming a hierarchical topology / hierarchical refinement of a trimmed one (open findings C10-boundary-of-trimmed-hierarchical,
+        #    C10-refined-by-cut-element: the boundary of the result is unavailable or not closed)
+        if ((name == 'trim' and 'refined_by' in done) or (name == 'refined_by' and 'trim' in done)) and not strict:
+            continue
         try:
             if name == 'refine':
                 if len(topo) > 64: continue
